@@ -280,6 +280,9 @@ def run(ctx):
             apps2 = [a for a in calls_named(ma, "append") if isinstance(a.func, ast.Attribute) and norm.U(a.func.value) in outn and a.args and norm.is_name(a.args[0], rn)]
             ok = len(outn) == 1 and len(apps2) == 1
             ctx.ob(4, "K6", "every Assignment produced is returned to the executor", ok, ma, c, construct="assignments.append(assignment)", detail=f"returned: {sorted(outn)}; appends: {len(apps2)}")
+    # "ready" is what get_ops(require_parents_complete=True) says it is (C01#7/#8): sound (only ready ones) and complete (all of them)
+    from . import c01
+    c01.check_get_ops(Renumber(ctx, {7: 4, 8: 4}))
     sched.ob_never_suspends(ctx, 5, "overbook", "overbook")
     sched.fixture_suspend_present(ctx, 5)
     # the scheduler returns exactly what make_assignments produced
